@@ -214,6 +214,9 @@ def get_spacing(detector_grid):
     """Find the (x, y) spacing for a ```detector_grid```."""
     xspacing = np.diff(detector_grid.x)
     yspacing = np.diff(detector_grid.y)
+    if len(xspacing) == 0 or len(yspacing) == 0:
+        msg = "array has a single row or column, can't determine its spacing"
+        raise ValueError(msg)
     if not (np.allclose(xspacing[0], xspacing) and
             np.allclose(yspacing[0], yspacing)):
         msg = "array has nonuniform spacing, can't determine a single spacing"
